@@ -103,7 +103,18 @@ def check_unit(ctx, unit):
 def run(shard, ctx):
     kind = shard["kind"]
     if kind == "exact":
-        for v, exp in vocabulary():
+        voc = vocabulary()
+        # values a hair away from the exact ones are analysed first (whatever they are taken for is their own business)
+        for v, exp in voc:
+            for near in (float("%.7f" % v), v * (1 + 1e-7), v * (1 - 1e-7), float("%.6f" % v)):
+                ctx.call(V.determine, near)
+        for v, exp in voc:
+            # the same value given as an exact Fraction
+            fr = (Fraction(1) / Fraction(exp[0])) * (2 - Fraction(1, 2 ** exp[1])) * Fraction(exp[3], exp[2])
+            st, t = ctx.call(V.determine, 1 / fr)
+            ctx.check("analysis: determine returns the (base, dots, ratio) the value was built from", st == "ok" and same(t, exp),
+                      {"value": str(1 / fr), "given_as": "Fraction", "built_as": exp}, exp, repr(t), mechanism="exact-fraction:dots%d-ratio%d" % (exp[1], exp[2]))
+        for v, exp in voc:
             st, t = ctx.call(V.determine, v)
             ctx.check("analysis: determine returns the (base, dots, ratio) the value was built from", st == "ok" and same(t, exp),
                       {"value": v, "built_as": exp}, exp, repr(t), mechanism="exact:dots%d-ratio%d" % (exp[1], exp[2]))
